@@ -508,5 +508,7 @@ pub mod authenticator {
 }
 pub use authenticator::{Authenticator, CredentialIdLength};
 
+//@ structural cancel mc impl Authenticator / fn make_credential
+//@ structural cancel ga impl Authenticator / fn get_assertion
 } // verus!
 fn main() {}
